@@ -102,6 +102,12 @@ def make_pair(case):
         edit(rng, t1, rng.randint(0, 10))
     else:
         t1 = rand_tree(rng, "T1", rng.randint(0, 14))
+    if case["seed"] % 3 == 0:
+        # input nodes that already carry metadata of their own (the marks of the result must not end up in it)
+        for tt in (t0, t1):
+            for nd in tt:
+                if rng.random() < 0.5:
+                    nd.set_meta("own", nd.data)
     return t0, t1
 
 
